@@ -25,7 +25,7 @@ def main():
             scratch = tempfile.mkdtemp(prefix="seedout-")
             env = dict(os.environ, VERIF_REPO=wt, VERIF_EVIDENCE_DIR=scratch, VERIF_REPLAY_DIR=scratch)
             p = subprocess.run(["python3-vt", "checks/check.py", pid, "--tier", tier], cwd=ROOT, env=env, capture_output=True, text=True)
-            lines = [l for l in p.stdout.splitlines() if l.startswith(("VIOLATION", "UNDECIDED", "OK", "KNOWN"))]
+            lines = [l for l in p.stdout.splitlines() if l.startswith(("VIOLATION", "UNDECIDED", "OK", "KNOWN", "NOTE"))]
             viol = [l for l in lines if l.startswith("VIOLATION")]
             ded = [l for l in viol if "-bounded-" not in l]
             bnd = [l for l in viol if "-bounded-" in l]
@@ -38,7 +38,7 @@ def main():
             print(pid, "rc=%d deductive_obligations_failed=%d bounded_failures=%d" % (p.returncode, len(refuted), len(bnd)))
             for r in refuted[:3]:
                 print("    obligation:", r)
-            for l in (bnd[:2] + [l for l in lines if not l.startswith("VIOLATION")][:3]):
+            for l in (bnd[:2] + [l for l in lines if l.startswith(("NOTE", "UNDECIDED"))][:3] + [l for l in lines if l.startswith(("OK", "KNOWN"))][:2]):
                 print("   ", l[:220])
             shutil.rmtree(scratch, ignore_errors=True)
     finally:
